@@ -82,8 +82,12 @@ fn relaxed(s: &str, allow: bool) -> (String, String, String) {
     }
 }
 
-fn lossless_part(s: &str) -> String {
+fn lossless_part(s: &str, subst_free_only: bool) -> String {
     let (e1, acc1, sv1) = relaxed(s, true);
+    if subst_free_only {
+        // the allow_substvar = false reader is outside the statement when "${...}" is present
+        return format!("e1={}|acc={}|sv={}|e0=-|strict=-|acc0=-|sv0=-", e1, acc1, sv1);
+    }
     let (e0, acc0, sv0) = relaxed(s, false);
     let strict = g(|| match Relations::from_str(s) {
         Ok(_) => "OK".to_string(),
@@ -129,10 +133,10 @@ fn lossy_s(s: &str) -> String {
     })
 }
 
-/// stream rel-acc: fields = [hex text]
+/// stream rel-acc (and rel-acc-pre, the same on the implementation side): fields = [hex text]
 pub fn rel_acc(fs: &[&str]) -> String {
     let s = unhex(fs[0]);
-    lossless_part(&s)
+    lossless_part(&s, false)
 }
 
 /// stream rel-doc: fields = [hex text; encoding of the abstract field (model side only);
@@ -140,19 +144,27 @@ pub fn rel_acc(fs: &[&str]) -> String {
 pub fn rel_doc(fs: &[&str]) -> String {
     let s = unhex(fs[0]);
     let lossy = if fs.len() > 2 && fs[2] == "1" { lossy_s(&s) } else { "-".to_string() };
-    format!("{}|lossy={}", lossless_part(&s), lossy)
+    format!("{}|lossy={}", lossless_part(&s, s.contains('$')), lossy)
 }
 
-/// stream rel-lossy-probe: fields = [hex text] — the lossy reader alone (diagnostics)
+/// stream rel-doc-model: the lossless part of rel-doc
+pub fn rel_doc_model(fs: &[&str]) -> String {
+    let s = unhex(fs[0]);
+    lossless_part(&s, s.contains('$'))
+}
+
+/// stream rel-lossy-probe: fields = [hex text] -- lossless accessors and the lossy reader (diagnostics)
 pub fn rel_lossy_probe(fs: &[&str]) -> String {
     let s = unhex(fs[0]);
-    format!("{}|lossy={}", lossless_part(&s), lossy_s(&s))
+    format!("{}|lossy={}", lossless_part(&s, false), lossy_s(&s))
 }
 
 pub fn streams() -> Vec<(&'static str, crate::StreamFn)> {
     vec![
         ("rel-acc", rel_acc as crate::StreamFn),
+        ("rel-acc-pre", rel_acc as crate::StreamFn),
         ("rel-doc", rel_doc as crate::StreamFn),
+        ("rel-doc-model", rel_doc_model as crate::StreamFn),
         ("rel-lossy-probe", rel_lossy_probe as crate::StreamFn),
     ]
 }
